@@ -48,6 +48,12 @@ func vMergeCfg(prefix, idBase string, nDocs int, second bool, focus string) gCfg
 				fields[i].always = true
 			}
 		}
+		if vParam("upperNames", 0) == 1 {
+			// field names that sort before "_id" (upper-case letters, digits)
+			for i := range fields {
+				fields[i].name = []string{"A", "0b"}[i%2]
+			}
+		}
 		return gCfg{prefix: prefix, idBase: idBase, nDocs: nDocs, wide: -1, maxAP: 1, symTyp: vParam("symTyp", 1) == 1, fixAP: vParam("fixAP", 0) == 1, storeAll: vParam("storeAll", 0) == 1, fields: fields}
 	}
 	fields = []gField{{name: "f", terms: []string{"", "a"}, tv: true, maxLocs: 1, dv: true}}
